@@ -38,6 +38,7 @@ const (
 	oRequest     // direct verb
 	oAPIRequest  // through a SimpleAPI built on the SimpleHTTP
 	oSecondShare // thorough only: a second SimpleHTTP is created on the current client
+	oSetRetarget // the caller re-points the bound client at another transport, then SetHTTPClient(that client)
 )
 
 type op struct {
@@ -64,6 +65,8 @@ func (o op) String() string {
 		return fmt.Sprintf("SetEarlier(%d)", o.Arg)
 	case oSetCopy:
 		return "SetCopy"
+	case oSetRetarget:
+		return fmt.Sprintf("SetRetarget(%c)", 'A'+o.Arg)
 	case oRequest:
 		return fmt.Sprintf("%s(fail=%d)", o.Verb, o.FailAt)
 	case oAPIRequest:
@@ -280,6 +283,19 @@ func (m *machine) apply(o op) (res result) {
 		}
 		m.nSet++
 		panicked, stack = vlib.Try(func() { m.sh.SetHTTPClient(m.clients[k]) })
+	case oSetRetarget:
+		m.nSet++
+		m.wantStub = o.Arg
+		panicked, stack = vlib.Try(func() {
+			c := m.sh.GetHTTPClient()
+			c.Transport = m.stubs[o.Arg]
+			for i, known := range m.clients {
+				if known == c {
+					m.clientStub[i] = o.Arg // that client now sits on the other base transport
+				}
+			}
+			m.sh.SetHTTPClient(c)
+		})
 	case oSetCopy:
 		m.nSet++
 		panicked, stack = vlib.Try(func() {
@@ -559,8 +575,8 @@ func propMachine(allowSecond bool) func(t *rapid.T) {
 				}
 			},
 			"SetClient": func(t *rapid.T) {
-				o := op{Kind: rapid.SampledFrom([]int{oSetFresh, oSetFresh, oSetCurrent, oSetEarlier, oSetCopy}).Draw(t, "how")}
-				if o.Kind == oSetFresh {
+				o := op{Kind: rapid.SampledFrom([]int{oSetFresh, oSetFresh, oSetCurrent, oSetEarlier, oSetCopy, oSetRetarget}).Draw(t, "how")}
+				if o.Kind == oSetFresh || o.Kind == oSetRetarget {
 					o.Arg = rapid.IntRange(0, 1).Draw(t, "stub")
 				}
 				if o.Kind == oSetEarlier {
